@@ -615,7 +615,9 @@ type SourcePortSetCriterion portset.PortSet
 
 // Meet implements the Criterion Meet method.
 func (c *SourcePortSetCriterion) Meet(ctx context.Context, network protocol, requestInfo RequestInfo) (bool, error) {
-	return (*portset.PortSet)(c).Contains(requestInfo.SourceAddrPort.Port()), nil
+	// Port 0 comes in unchecked from the network and is never in the set; PortSet.Contains panics on it.
+	port := requestInfo.SourceAddrPort.Port()
+	return port != 0 && (*portset.PortSet)(c).Contains(port), nil
 }
 
 // SourceIPCriterion restricts the source IP address.
@@ -659,7 +661,9 @@ type DestPortSetCriterion portset.PortSet
 
 // Meet implements the Criterion Meet method.
 func (c *DestPortSetCriterion) Meet(ctx context.Context, network protocol, requestInfo RequestInfo) (bool, error) {
-	return (*portset.PortSet)(c).Contains(requestInfo.TargetAddr.Port()), nil
+	// Port 0 comes in unchecked from the network and is never in the set; PortSet.Contains panics on it.
+	port := requestInfo.TargetAddr.Port()
+	return port != 0 && (*portset.PortSet)(c).Contains(port), nil
 }
 
 // DestDomainCriterion restricts the destination domain.
